@@ -72,7 +72,7 @@ func TestVerifC23Cluster(t *testing.T) {
 		if _, err := c[0].API.CreateIndex(ctx, "i", pilosa.IndexOptions{}); err != nil {
 			t.Fatal(err)
 		}
-		if _, err := c[0].API.CreateField(ctx, "i", "f", pilosa.OptFieldTypeSet(pilosa.CacheTypeRanked, 100)); err != nil {
+		if _, err := vrcCreateField(c[0].API, "i", "f", pilosa.OptFieldTypeSet(pilosa.CacheTypeRanked, 100)); err != nil {
 			t.Fatal(err)
 		}
 		var sb strings.Builder
